@@ -1,4 +1,5 @@
 import ast
+import functools
 import marshal
 import re
 import struct
@@ -396,6 +397,21 @@ class EmptyPickleError(PickleDecodeError):
     pass
 
 
+def _all_or_nothing(method):
+    """An injection helper that refuses its arguments part-way leaves the pickle as it found it"""
+
+    @functools.wraps(method)
+    def wrapper(self, *args, **kwargs):
+        saved = list(self._opcodes)
+        try:
+            return method(self, *args, **kwargs)
+        except BaseException:
+            self[:] = saved
+            raise
+
+    return wrapper
+
+
 class Pickled(OpcodeSequence):
     def __init__(self, opcodes: Iterable[Opcode]):
         self._opcodes: List[Opcode] = list(opcodes)
@@ -449,6 +465,7 @@ class Pickled(OpcodeSequence):
         else:
             raise ValueError(f"Type {type(obj)} not supported")
 
+    @_all_or_nothing
     def insert_python_obj(self, index: int, obj: Any) -> int:
         """Insert an opcode sequence that constructs a python object on the stack.
         Returns the number of opcodes inserted"""
@@ -457,6 +474,7 @@ class Pickled(OpcodeSequence):
             self.insert(index + i, opcode)
         return len(opcodes)
 
+    @_all_or_nothing
     def insert_python(
         self,
         *args,
@@ -528,6 +546,7 @@ class Pickled(OpcodeSequence):
 
     insert_python_eval = insert_python
 
+    @_all_or_nothing
     def append_python(
         self,
         *args,
@@ -563,6 +582,7 @@ class Pickled(OpcodeSequence):
         self.insert(index, Int(magic))
         self.insert(-1 if index == -1 else index + 1, Pop())
 
+    @_all_or_nothing
     def insert_function_call_on_unpickled_object(
         self,
         function_definition: str,
